@@ -102,6 +102,11 @@ def family(quick=True):
     T["byvalue.binop-read-before-effect"] = _f("x: uint256, y: uint256", "uint256", "self.x = x % 100\nreturn (self.x << 128) ^ self.bump(y % 100)")
     T["byvalue.save-restore-around-call"] = _f("x: uint256, y: uint256", "uint256", "self.x = x\nsaved: uint256 = self.x\nr: uint256 = self.bump2(y & 3)\nself.x = saved\nreturn r ^ self.bump2(1)")
     T["byvalue.save-restore-transient"] = _f("x: uint256, y: uint256", "uint256", "self.tv = x\nsaved: uint256 = self.tv\nr: uint256 = self.bump2(y & 3)\nself.tv = saved\nreturn r ^ self.bump2(1) ^ self.tv")
+    # the shape of a seeded change (C08-1): a non-inlined callee (loop, two call sites) between reading a state variable and
+    # writing the saved value back, all in one basic block
+    T["byvalue.save-restore.demo-shape"] = ("x: uint256\nhist: DynArray[uint256, 4]\n\n@internal\ndef bump(n: uint256) -> uint256:\n    for i: uint256 in range(n, bound=3):\n        self.hist.append(self.x ^ i)\n"
+                                            "    self.x = self.x ^ (n << 8)\n    return self.x\n\n@external\ndef other(n: uint256) -> uint256:\n    return self.bump(n & 1) ^ self.bump(1)\n\n"
+                                            "@external\ndef f() -> uint256:\n    saved: uint256 = self.x\n    r: uint256 = self.bump(2)\n    self.x = saved\n    return r\n")
     T["assert.once"] = _f("x: uint256", "uint256", "assert self.c(x)\nreturn 1")
     T["return.once"] = _f("x: uint256", "uint256", "if self.c(x):\n    return self.a(x)\nreturn self.b(x)")
     return T
